@@ -330,4 +330,89 @@ def Sys.step (y : Sys) (e : SysEvent) : Sys :=
 
 def Sys.exec (y : Sys) (es : List SysEvent) : Sys := es.foldl Sys.step y
 
+/-! ### `_internal/_asyncio.cancel_and_await(task)`
+
+One task with an abstract clean-up (after a cancellation is delivered the user code may take any number of further
+await steps — `taskStep cont` — before it ends with any outcome; a further cancellation may be delivered meanwhile),
+bare `task.cancel()` calls, and any number of concurrent `cancel_and_await(task)` calls.  The guard of the early
+return, the `task.cancel()` and the swallowed `CancelledError` come from `Extracted.Actor`. -/
+namespace CA
+
+inductive Phase
+  | notStarted                 -- created, first step not taken
+  | running                    -- suspended in its normal work
+  | cleaning                   -- a cancellation was delivered and the user code is still cleaning up
+  | done (o : Outcome)
+deriving DecidableEq, Repr, Inhabited
+
+structure Task where
+  phase : Phase
+  cancelReq : Bool             -- a CancelledError waits to be delivered
+  cancelling : Nat             -- `task.cancelling()`: number of `cancel()` requests accepted so far
+deriving DecidableEq, Repr, Inhabited
+
+def Task.isDone (t : Task) : Bool := match t.phase with | .done _ => true | _ => false
+
+/-- `task.cancel()`. -/
+def Task.cancel (t : Task) : Task :=
+  if t.isDone then t else { t with cancelReq := true, cancelling := t.cancelling + 1 }
+
+def Task.step (t : Task) (r : StepRes) : Task :=
+  match t.phase with
+  | .notStarted => if t.cancelReq then { t with phase := .done .cancelled, cancelReq := false } else { t with phase := .running }
+  | .done _ => t
+  | ph =>
+    match r with
+    | .fin o => { t with phase := .done o, cancelReq := false }
+    | .cont => if t.cancelReq then { t with phase := .cleaning, cancelReq := false } else { t with phase := ph }
+
+inductive CallSt
+  | awaiting
+  | returned (early : Bool) (raised : Option Outcome) (tm : Int)   -- `early`: left through the guard
+deriving DecidableEq, Repr, Inhabited
+
+structure St where
+  now : Int
+  task : Task
+  callers : List CallSt
+deriving Repr, Inhabited
+
+inductive Ev
+  | advance (d : Nat)
+  | cancel                     -- somebody calls `task.cancel()`
+  | call                       -- first step of a new `cancel_and_await(task)`
+  | taskStep (r : StepRes)     -- the task takes a step (a pending cancellation is delivered on it)
+  | wake (c : Nat)             -- call `c` resumes from `await task` (enabled once the task is done)
+deriving DecidableEq, Repr
+
+def init : St := { now := 0, task := { phase := .notStarted, cancelReq := false, cancelling := 0 }, callers := [] }
+
+/-- What `await task` raises into `cancel_and_await` and what gets out of its `try`. -/
+def propagated (o : Outcome) : Option Outcome :=
+  match o with
+  | .ret => none
+  | .cancelled => if Extracted.Actor.caSwallowsCancelled then none else some .cancelled
+  | .exc => some .exc
+  | .baseExc => some .baseExc
+
+def step (s : St) (e : Ev) : St :=
+  match e with
+  | .advance d => { s with now := s.now + d }
+  | .cancel => { s with task := s.task.cancel }
+  | .call =>
+    if Extracted.Actor.caEarlyReturn s.task.isDone s.task.cancelling then
+      { s with callers := s.callers ++ [.returned true none s.now] }
+    else
+      { s with task := if Extracted.Actor.caCancels then s.task.cancel else s.task,
+               callers := s.callers ++ [.awaiting] }
+  | .taskStep r => { s with task := s.task.step r }
+  | .wake c =>
+    match s.callers[c]?, s.task.phase with
+    | some .awaiting, .done o => { s with callers := s.callers.set c (.returned false (propagated o) s.now) }
+    | _, _ => s
+
+def exec (s : St) (es : List Ev) : St := es.foldl step s
+
+end CA
+
 end Actor
